@@ -350,6 +350,7 @@ func (e *Engine) addPEGFlagObligations(pa *pegAnalysis) {
 	e.addDigitFreeObligations(pa)
 	e.addAltOrderObligations(pa)
 	e.addLetterFreeObligations(pa)
+	e.addKeywordBoundaryObligations(pa)
 	e.addClassExcludesObligations(pa)
 	// C18: st.* instructions are emitted only by rules that are reachable solely through the "^st" alternative
 	e.addStConfinement(pa, uniq(stSites))
@@ -852,4 +853,90 @@ func (pa *pegAnalysis) mayConsumeLetter(n *pegNode, seen map[*pegRule]bool) stri
 		}
 	}
 	return ""
+}
+
+// addKeywordBoundaryObligations (C02, C03): a keyword literal (one of the alternatives of rule `keywords`) used by a
+// statement rule matches whole words only: the element after it is `!xidContinue`, mandatory white space (sp1x / sp1),
+// or — for `else` — white space followed by a block.  Otherwise an identifier that merely begins with the keyword
+// (`returnValue = 5`, `breakx`) is cut in two.
+func (e *Engine) addKeywordBoundaryObligations(pa *pegAnalysis) {
+	kw := pa.g.ByName["keywords"]
+	if kw == nil {
+		return
+	}
+	words := map[string]bool{}
+	var collect func(n *pegNode)
+	collect = func(n *pegNode) {
+		if n.Kind == pkLit {
+			words[n.Text] = true
+		}
+		for _, k := range n.Kids {
+			collect(k)
+		}
+	}
+	collect(kw.Expr)
+	boundary := func(n *pegNode) bool {
+		var ok func(n *pegNode) bool
+		ok = func(n *pegNode) bool {
+			n = unwrapPeg(n)
+			switch n.Kind {
+			case pkNot:
+				k := unwrapPeg(n.Kids[0])
+				return k.Kind == pkRef && pa.g.Rules[k.Ref].Name == "xidContinue"
+			case pkRef:
+				nm := pa.g.Rules[n.Ref].Name
+				return nm == "sp1x" || nm == "sp1"
+			case pkSeq:
+				if len(n.Kids) == 0 {
+					return false
+				}
+				if ok(n.Kids[0]) {
+					return true
+				}
+				// sp block
+				if f := unwrapPeg(n.Kids[0]); f.Kind == pkRef && pa.g.Rules[f.Ref].Name == "sp" && len(n.Kids) > 1 {
+					if b := unwrapPeg(n.Kids[1]); b.Kind == pkRef && pa.g.Rules[b.Ref].Name == "block" {
+						return true
+					}
+				}
+				return false
+			case pkChoice:
+				for _, k := range n.Kids {
+					if !ok(k) {
+						return false
+					}
+				}
+				return len(n.Kids) > 0
+			}
+			return false
+		}
+		return ok(n)
+	}
+	for _, r := range pa.g.Rules {
+		if r == kw || r.Name == "keywords_test" {
+			continue
+		}
+		n := 0
+		var walk func(nd *pegNode)
+		walk = func(nd *pegNode) {
+			if nd.Kind == pkSeq {
+				for i, k := range nd.Kids {
+					ku := unwrapPeg(k)
+					if ku.Kind == pkLit && words[ku.Text] {
+						n++
+						good := i+1 < len(nd.Kids) && boundary(nd.Kids[i+1])
+						detail := ""
+						if !good {
+							detail = "the keyword " + strconv.Quote(ku.Text) + " in rule " + r.Name + " is not followed by !xidContinue or mandatory white space"
+						}
+						e.frameObl(fmt.Sprintf("peg:%s/keyword-boundary:%s#%d", r.Name, ku.Text, n), []string{"C02", "C03"}, good, "", "keyword "+strconv.Quote(ku.Text)+" in "+r.Name+" matches whole words only", detail)
+					}
+				}
+			}
+			for _, k := range nd.Kids {
+				walk(k)
+			}
+		}
+		walk(r.Expr)
+	}
 }
